@@ -23,8 +23,9 @@ package storage
 // ---- trusted sinks (C15): an I/O callee raises ghost.fail iff it reports an error
 //
 //@ trusted func (WriteBucket) Put(ctx, path, options) (w, err)
-//@   modifies ghost.fail, ghost.sinkPaths, ghost.lastPutOptions
+//@   modifies ghost.fail, ghost.wfail, ghost.sinkPaths, ghost.lastPutOptions
 //@   ensures  ghost.fail == (old(ghost.fail) || err != nil)
+//@   ensures  ghost.wfail == (old(ghost.wfail) || err != nil)
 //@   ensures  err == nil ==> w != nil
 //@   ensures  ghost.sinkPaths == add(old(ghost.sinkPaths), path)
 //@   ensures  ghost.lastPutOptions == options
@@ -38,19 +39,23 @@ package storage
 //@   ensures  err == nil ==> r != nil
 //@   ensures  ghost.sinkPaths == add(old(ghost.sinkPaths), path)
 //@ trusted func (WriteBucket) Delete(ctx, path) (err)
-//@   modifies ghost.fail, ghost.sinkPaths
+//@   modifies ghost.fail, ghost.wfail, ghost.sinkPaths
 //@   ensures  ghost.fail == (old(ghost.fail) || err != nil)
+//@   ensures  ghost.wfail == (old(ghost.wfail) || err != nil)
 //@   ensures  ghost.sinkPaths == add(old(ghost.sinkPaths), path)
 //@ trusted func (WriteBucket) DeleteAll(ctx, prefix) (err)
-//@   modifies ghost.fail, ghost.sinkPaths
+//@   modifies ghost.fail, ghost.wfail, ghost.sinkPaths
 //@   ensures  ghost.fail == (old(ghost.fail) || err != nil)
+//@   ensures  ghost.wfail == (old(ghost.wfail) || err != nil)
 //@   ensures  ghost.sinkPaths == add(old(ghost.sinkPaths), prefix)
 //@ trusted func (WriteObject) SetExternalPath(externalPath) (err)
-//@   modifies ghost.fail
+//@   modifies ghost.fail, ghost.wfail
 //@   ensures  ghost.fail == (old(ghost.fail) || err != nil)
+//@   ensures  ghost.wfail == (old(ghost.wfail) || err != nil)
 //@ trusted func (WriteObject) SetLocalPath(localPath) (err)
-//@   modifies ghost.fail
+//@   modifies ghost.fail, ghost.wfail
 //@   ensures  ghost.fail == (old(ghost.fail) || err != nil)
+//@   ensures  ghost.wfail == (old(ghost.wfail) || err != nil)
 //@ trusted pure func (ObjectInfo) Path() (r)
 //@ trusted pure func (ObjectInfo) ExternalPath() (r)
 //@ trusted pure func (ObjectInfo) LocalPath() (r)
@@ -62,48 +67,60 @@ package storage
 //
 //@ func copyReadObject
 //@   property C15
-//@   modifies ghost.fail, ghost.sinkPaths, ghost.lastPutOptions
+//@   modifies ghost.fail, ghost.wfail, ghost.sinkPaths, ghost.lastPutOptions
 //@   ensures  reported: ghost.fail && !old(ghost.fail) ==> retErr != nil
+//@   ensures  write-reported: ghost.wfail && !old(ghost.wfail) ==> retErr != nil
 //@   canary ensures retErr == nil
 //
 //@ func copyPath
 //@   property C15
-//@   modifies ghost.fail, ghost.sinkPaths, ghost.lastPutOptions
+//@   modifies ghost.fail, ghost.wfail, ghost.sinkPaths, ghost.lastPutOptions
 //@   ensures  reported: ghost.fail && !old(ghost.fail) ==> retErr != nil
+//@   ensures  write-reported: ghost.wfail && !old(ghost.wfail) ==> retErr != nil
 //@   canary ensures retErr == nil
 //
 //@ func CopyReader
 //@   property C15
-//@   modifies ghost.fail, ghost.sinkPaths, ghost.lastPutOptions
+//@   modifies ghost.fail, ghost.wfail, ghost.sinkPaths, ghost.lastPutOptions
 //@   ensures  reported: ghost.fail && !old(ghost.fail) ==> retErr != nil
+//@   ensures  write-reported: ghost.wfail && !old(ghost.wfail) ==> retErr != nil
 //@   canary ensures retErr == nil
 //
 //@ func CopyReadObject
 //@   property C15
-//@   modifies ghost.fail, ghost.sinkPaths, ghost.lastPutOptions, heap
+//@   modifies ghost.fail, ghost.wfail, ghost.sinkPaths, ghost.lastPutOptions, heap
 //@   ensures  reported: ghost.fail && !old(ghost.fail) ==> retErr != nil
+//@   ensures  write-reported: ghost.wfail && !old(ghost.wfail) ==> retErr != nil
 //@   loop 0 invariant ghost.fail ==> old(ghost.fail)
+//@   loop 0 invariant ghost.wfail ==> old(ghost.wfail)
 //
 //@ func CopyPath
 //@   property C15
-//@   modifies ghost.fail, ghost.sinkPaths, ghost.lastPutOptions, heap
+//@   modifies ghost.fail, ghost.wfail, ghost.sinkPaths, ghost.lastPutOptions, heap
 //@   ensures  reported: ghost.fail && !old(ghost.fail) ==> err != nil
+//@   ensures  write-reported: ghost.wfail && !old(ghost.wfail) ==> err != nil
 //@   loop 0 invariant ghost.fail ==> old(ghost.fail)
+//@   loop 0 invariant ghost.wfail ==> old(ghost.wfail)
 //
 //@ func Copy(ctx, from, to, options) (n, err)
 //@   property C15
-//@   modifies ghost.fail, ghost.sinkPaths, ghost.lastPutOptions, heap
+//@   modifies ghost.fail, ghost.wfail, ghost.sinkPaths, ghost.lastPutOptions, heap
 //@   ensures  reported: ghost.fail && !old(ghost.fail) ==> err != nil
+//@   ensures  write-reported: ghost.wfail && !old(ghost.wfail) ==> err != nil
 //@   loop 0 invariant ghost.fail ==> old(ghost.fail)
+//@   loop 0 invariant ghost.wfail ==> old(ghost.wfail)
 //
 // Every job handed to thread.Parallelize reports the failures it raises
 // (closure 0 is the job literal); AllPaths is a read-only walk.
 //@ func copyPaths(ctx, from, to, copyExternalAndLocalPaths, atomicOpt) (n, err)
 //@   property C15
-//@   modifies ghost.fail, ghost.sinkPaths, ghost.lastPutOptions, heap
+//@   modifies ghost.fail, ghost.wfail, ghost.sinkPaths, ghost.lastPutOptions, heap
 //@   ensures  reported: ghost.fail && !old(ghost.fail) ==> err != nil
+//@   ensures  write-reported: ghost.wfail && !old(ghost.wfail) ==> err != nil
 //@   loop 0 invariant ghost.fail ==> old(ghost.fail)
+//@   loop 0 invariant ghost.wfail ==> old(ghost.wfail)
 //@   closure 0 ensures job-reports: ghost.fail && !old(ghost.fail) ==> err != nil
+//@   closure 0 ensures job-reports-writes: ghost.wfail && !old(ghost.wfail) ==> err != nil
 //
 // ---- util.go
 //
@@ -116,37 +133,46 @@ package storage
 //
 //@ func AllPaths(ctx, readBucket, prefix) (r, err)
 //@   property C15
-//@   modifies ghost.fail, ghost.sinkPaths, ghost.lastPutOptions
+//@   modifies ghost.fail, ghost.wfail, ghost.sinkPaths, ghost.lastPutOptions
 //@   ensures  reported: ghost.fail && !old(ghost.fail) ==> err != nil
+//@   ensures  write-reported: ghost.wfail && !old(ghost.wfail) ==> err != nil
 //@   closure 0 invariant ghost.fail ==> old(ghost.fail)
+//@   closure 0 invariant ghost.wfail ==> old(ghost.wfail)
 //
 //@ func ReadPath(ctx, readBucket, path) (data, retErr)
 //@   property C15
-//@   modifies ghost.fail, ghost.sinkPaths, ghost.lastPutOptions
+//@   modifies ghost.fail, ghost.wfail, ghost.sinkPaths, ghost.lastPutOptions
 //@   ensures  reported: ghost.fail && !old(ghost.fail) ==> retErr != nil
+//@   ensures  write-reported: ghost.wfail && !old(ghost.wfail) ==> retErr != nil
 //@   canary ensures retErr == nil
 //
 //@ func PutPath
-//@   property C15
-//@   modifies ghost.fail, ghost.sinkPaths, ghost.lastPutOptions
+//@   property C15 C09
+//@   ensures forwards-options: err == nil ==> ghost.lastPutOptions == options
+//@   modifies ghost.fail, ghost.wfail, ghost.sinkPaths, ghost.lastPutOptions
 //@   ensures  reported: ghost.fail && !old(ghost.fail) ==> retErr != nil
+//@   ensures  write-reported: ghost.wfail && !old(ghost.wfail) ==> retErr != nil
 //@   canary ensures retErr == nil
 //
 //@ func ForReadObject
 //@   property C15
-//@   modifies ghost.fail, ghost.sinkPaths, ghost.lastPutOptions, heap
+//@   modifies ghost.fail, ghost.wfail, ghost.sinkPaths, ghost.lastPutOptions, heap
 //@   ensures  reported: ghost.fail && !old(ghost.fail) ==> retErr != nil
+//@   ensures  write-reported: ghost.wfail && !old(ghost.wfail) ==> retErr != nil
 //
 //@ func ForWriteObject
 //@   property C15
-//@   modifies ghost.fail, ghost.sinkPaths, ghost.lastPutOptions, heap
+//@   modifies ghost.fail, ghost.wfail, ghost.sinkPaths, ghost.lastPutOptions, heap
 //@   ensures  reported: ghost.fail && !old(ghost.fail) ==> retErr != nil
+//@   ensures  write-reported: ghost.wfail && !old(ghost.wfail) ==> retErr != nil
 //
 //@ func WalkReadObjects(ctx, readBucket, prefix, f) (err)
 //@   property C15
-//@   modifies ghost.fail, ghost.sinkPaths, ghost.lastPutOptions, heap
+//@   modifies ghost.fail, ghost.wfail, ghost.sinkPaths, ghost.lastPutOptions, heap
 //@   ensures  reported: ghost.fail && !old(ghost.fail) ==> err != nil
+//@   ensures  write-reported: ghost.wfail && !old(ghost.wfail) ==> err != nil
 //@   closure 0 invariant ghost.fail ==> old(ghost.fail)
+//@   closure 0 invariant ghost.wfail ==> old(ghost.wfail)
 //
 // ---- mapper.go / map.go (C13, C14): a mapped view hands its delegate only paths inside the mapper's root
 //
@@ -186,10 +212,11 @@ package storage
 // Every path handed to the delegate during a call lies inside the mapper's root and is the mapped, validated path.
 //@ func (r *mapReadBucketCloser) Get(ctx, path) (obj, err)
 //@   property C13 C14
-//@   modifies heap, ghost.fail, ghost.sinkPaths
+//@   modifies heap, ghost.fail, ghost.wfail, ghost.sinkPaths
 //@   requires validRel(rootOf(r.mapper))
 //@   ensures confined: forall q string :: q in ghost.sinkPaths && !(q in old(ghost.sinkPaths)) ==> validRel(q) && inside(rootOf(old(r.mapper)), q) && q == old(r.mapper).MapPath(Normalize(path))
 //@   ensures reported {C15}: ghost.fail && !old(ghost.fail) ==> err != nil
+//@   ensures write-reported {C15}: ghost.wfail && !old(ghost.wfail) ==> err != nil
 //
 //@ func (r *mapReadBucketCloser) Stat(ctx, path) (obj, err)
 //@   property C13 C14
@@ -199,32 +226,35 @@ package storage
 //
 //@ func (r *mapReadBucketCloser) Walk(ctx, prefix, f) (err)
 //@   property C13 C14
-//@   modifies heap, ghost.fail, ghost.sinkPaths
+//@   modifies heap, ghost.fail, ghost.wfail, ghost.sinkPaths
 //@   requires validRel(rootOf(r.mapper))
 //@   ensures confined: forall q string :: q in ghost.sinkPaths && !(q in old(ghost.sinkPaths)) ==> validRel(q) && inside(rootOf(old(r.mapper)), q) && q == old(r.mapper).MapPath(Normalize(prefix))
 //@   closure 0 invariant forall q string :: q in ghost.sinkPaths && !(q in old(ghost.sinkPaths)) ==> validRel(q) && inside(rootOf(old(r.mapper)), q) && q == old(r.mapper).MapPath(Normalize(prefix))
 //
 //@ func (w *mapWriteBucketCloser) Put(ctx, path, opts) (obj, err)
 //@   property C13 C14 C15
-//@   modifies heap, ghost.fail, ghost.sinkPaths, ghost.lastPutOptions
+//@   modifies heap, ghost.fail, ghost.wfail, ghost.sinkPaths, ghost.lastPutOptions
 //@   requires validRel(rootOf(w.mapper))
 //@   ensures confined: forall q string :: q in ghost.sinkPaths && !(q in old(ghost.sinkPaths)) ==> validRel(q) && inside(rootOf(old(w.mapper)), q) && q == old(w.mapper).MapPath(Normalize(path))
 //@   ensures forwards-options {C15}: err == nil ==> ghost.lastPutOptions == opts
 //@   ensures reported {C15}: ghost.fail && !old(ghost.fail) ==> err != nil
+//@   ensures write-reported {C15}: ghost.wfail && !old(ghost.wfail) ==> err != nil
 //
 //@ func (w *mapWriteBucketCloser) Delete(ctx, path) (err)
 //@   property C13 C14
-//@   modifies heap, ghost.fail, ghost.sinkPaths
+//@   modifies heap, ghost.fail, ghost.wfail, ghost.sinkPaths
 //@   requires validRel(rootOf(w.mapper))
 //@   ensures confined: forall q string :: q in ghost.sinkPaths && !(q in old(ghost.sinkPaths)) ==> validRel(q) && inside(rootOf(old(w.mapper)), q) && q == old(w.mapper).MapPath(Normalize(path))
 //@   ensures reported {C15}: ghost.fail && !old(ghost.fail) ==> err != nil
+//@   ensures write-reported {C15}: ghost.wfail && !old(ghost.wfail) ==> err != nil
 //
 //@ func (w *mapWriteBucketCloser) DeleteAll(ctx, prefix) (err)
 //@   property C13 C14
-//@   modifies heap, ghost.fail, ghost.sinkPaths
+//@   modifies heap, ghost.fail, ghost.wfail, ghost.sinkPaths
 //@   requires validRel(rootOf(w.mapper))
 //@   ensures confined: forall q string :: q in ghost.sinkPaths && !(q in old(ghost.sinkPaths)) ==> validRel(q) && inside(rootOf(old(w.mapper)), q) && q == old(w.mapper).MapPath(Normalize(prefix))
 //@   ensures reported {C15}: ghost.fail && !old(ghost.fail) ==> err != nil
+//@   ensures write-reported {C15}: ghost.wfail && !old(ghost.wfail) ==> err != nil
 //
 //@ trusted func replaceReadObjectCloserPath(readObjectCloser, path) (r)
 //@ trusted func replaceObjectInfoPath(objectInfo, path) (r)
